@@ -172,8 +172,18 @@ def handler(c):
     verdicts = list(c["verdicts"])
     objs = {}
     table = []
+    extra_objs, members = [], {}
     for ent in c["table"]:
-        if ent["kind"] == "user":
+        if ent["kind"] == "user_composite":
+            from quansino.moves.composite import CompositeMove
+            for o_, sc_ in zip(ent["oids"], ent["scripts"]):
+                objs[o_] = UserMove(o_, sc_, "any")
+            crit = UserCriteria(100 + len(table), verdicts, snaps)
+            mc.add_move(CompositeMove([objs[o_] for o_ in ent["oids"]]), criteria=crit, name=ent["name"], probability=ent.get("probability", 1.0))
+            table.append([ent["name"], None, 100 + len(table)])
+            extra_objs.extend(ent["oids"])
+            members[ent["name"]] = list(ent["oids"])
+        elif ent["kind"] == "user":
             if ent["oid"] not in objs:
                 objs[ent["oid"]] = UserMove(ent["oid"], ent["script"], "any")
             crit = {"len0": UserCriteriaFalsy, "boolfalse": UserCriteriaBoolFalse}.get(ent.get("criteria_kind"), UserCriteria)(100 + len(table), verdicts, snaps)
@@ -200,13 +210,22 @@ def handler(c):
                 # the consumer of the step generator re-registers the announced entry with a NEW criteria object before the trial runs:
                 # the table is what counts when the trial is executed
                 newk = 300 + ntr
+                old = ent_of[name]["oid"]
+                if c.get("reannounce_new_move") and sum(1 for t_ in table if t_[1] == old) == 1:
+                    # ... and with a NEW move object (the old one is out of the table from now on: it is neither called nor told about anything)
+                    new_oid = 500 + old
+                    objs[new_oid] = UserMove(new_oid, object.__getattribute__(objs[old], "_v_script"), "any")
+                    ent_of[name] = dict(ent_of[name], oid=new_oid)
+                    for t_ in table:
+                        if t_[0] == name:
+                            t_[1] = new_oid
                 mc.add_move(objs[ent_of[name]["oid"]], criteria=UserCriteria(newk, verdicts, snaps), name=name, probability=ent_of[name].get("probability", 1.0))
                 kid_of[name] = newk
                 for t_ in table:
                     if t_[0] == name:
                         t_[2] = newk
             ntr += 1
-            cur = {"name": name, "kid": kid_of[name], "start": len(LOG), "n_before": len(atoms), "cell_before": cell_token(atoms.cell.array), "snap_start": len(snaps)}
+            cur = {"name": name, "kid": kid_of[name], "oid": ent_of[name].get("oid"), "objs": [t_[1] for t_ in table if t_[1] is not None] + extra_objs, "members": members.get(name), "start": len(LOG), "n_before": len(atoms), "cell_before": cell_token(atoms.cell.array), "snap_start": len(snaps)}
         if cur is not None:
             cur.update(end=len(LOG), hist=[str(mc.move_history[-1][0]), None if mc.move_history[-1][1] is None else bool(mc.move_history[-1][1])],
                        n_after=len(atoms), cell_after=cell_token(atoms.cell.array), snap_end=len(snaps))
